@@ -367,7 +367,7 @@ def scenarios(rng, tier: str) -> List[dict]:
         from props.c32 import corpus_cases
         cs = [c for c in corpus_cases(rng, 60 if tier == "quick" else 400) if len(c["script"]) < 1500]
         rng.shuffle(cs)
-        k = 2 if tier == "quick" else 20
+        k = 1 if tier == "quick" else 20
         for a, b in zip(cs[0:2 * k:2], cs[1:2 * k:2]):
             S.append({"name": f"corpus:{a['shape']}+{b['shape']}", "class": "corpus",
                       "calls": [call("run", "A", a["script"], a["structs"], a["data"], **a["kw"]), call("run", "B", b["script"], b["structs"], b["data"], **b["kw"])]})
@@ -615,7 +615,7 @@ def run(ctx):
     proved = ctx.prove("C17")
     lock_scope_check(ctx)
     scs = stored_scenarios() + scenarios(ctx.rng, ctx.tier)
-    budget = 5 if ctx.tier == "quick" else 60
+    budget = 4 if ctx.tier == "quick" else 60
     hist: Dict[str, int] = {}
     shape_items: List[Tuple[str, List[str]]] = []
     shape_names: List[str] = []
@@ -724,7 +724,7 @@ def run(ctx):
              ("period-formats", "tp-config", by["period-format:vtl-vs-sdmx_reporting"]["calls"] + by["period-format:natural-vs-sdmx_gregorian"]["calls"][:1]),
              ("error-messages", "dataset-output", by["error-message:semantic-error-vs-run"]["calls"] + by["error-message:runtime-error-vs-run"]["calls"][:1]),
              ("parse-mix", "parse", by["parse-mix:prettify-create_ast"]["calls"] + [call("create_ast", "C", "DS_rC := DS_1[filter Me_1 > 0];")])]
-    stress(ctx, pools, threads_n=4, iters=8 if ctx.tier == "quick" else 150)
+    stress(ctx, pools, threads_n=4, iters=6 if ctx.tier == "quick" else 150)
     ctx.cov["rule"] = ("forced: (scenario, schedule) pairs — model race witnesses, 2-switch schedules over the yield points of both calls (all of them in "
                        "thorough), random multi-switch schedules; stress: calls executed by 4 free-running threads with a 1 microsecond switch interval")
     ctx.trusted.append("the deterministic scheduler of harness/props/c17.py (semaphores; one engine thread runs at a time; every wait has a timeout) and the "
